@@ -3,6 +3,7 @@ package c15
 import (
 	"fmt"
 	"runtime"
+	"strings"
 	"sync"
 	"sync/atomic"
 	"time"
@@ -18,17 +19,22 @@ import (
 // of the template, between print tags and between text runs (whose joining
 // TLC computes with RuleA), and demands exactly before + body + after.
 
-// 'E' stands for U+00E9 inside the model ("e" occurs in "literal")
+// Stand-ins inside the model: 'E' = U+00E9 ("e" occurs in "literal"), 'P' =
+// U+2028, 'Q' = U+2029, 'N' = U+0085 (NEL), 'V' = VT, 'F' = FF. Every kind
+// of line break is an atom (LF, CR, CR LF; LF CR by two atoms).
 var litAtoms = []string{"a", "{", "}", "{/literal}", "{{/literal}}", "/literal}", "{literal}", " // c", "/* c */",
-	"\n  ", " ", "{sp}", "{nil}", "{lb}", "\"", "'", "E", "\n"}
-var litReal = map[rune]string{'E': "é"}
+	"\n  ", " ", "{sp}", "{lb}", "\"", "E", "\n", "\r", "\r\n", "P", "Q", "N", "V", "F"}
+// the hazards proper, for one more atom of depth in the thorough tier
+var litAtomsCore = []string{"a", "{", "}", "{/literal}", "{{/literal}}", "/literal}", " // c", "\n", "\r", "\r\n"}
+var litReal = map[rune]string{'E': "\u00e9", 'P': "\u2028", 'Q': "\u2029", 'N': "\u0085", 'V': "\v", 'F': "\f"}
 
 // LiteralCase is the replay record of one literal block.
 type LiteralCase struct {
 	Kind       string   `json:"kind"` // "literal"
 	Body       string   `json:"body"`
 	Double     bool     `json:"doubleBrace"`
-	Before     string   `json:"before"` // source before the block
+	Eol        string   `json:"fileLineEnds"` // lf | crlf | cr: the line-end form of the complete source
+	Before     string   `json:"before"`       // source before the block
 	After      string   `json:"after"`
 	File       string   `json:"file"`
 	Acceptable []string `json:"acceptable"`
@@ -38,17 +44,20 @@ type LiteralCase struct {
 type litCtx struct{ preSrc, postSrc, preOut, postOut string }
 
 type litBody struct {
+	eol     string
 	body    string
 	double  bool
 	verdict string
 	out     string
+	atoms   int // number of atoms
+	idx     int
 }
 
 // EnumerateLiterals runs the enumerator; the same run checks LitExact.
-func EnumerateLiterals(ctx *core.Ctx, n int) ([]litBody, []litCtx, error) {
+func EnumerateLiterals(ctx *core.Ctx, atoms []string, n int, label string) ([]litBody, map[string][]litCtx, error) {
 	cfg := fmt.Sprintf("CONSTANTS\n  Alpha <- AlphaRun\n  N = %d\n  Dev = {}\nINIT EnumInit\nNEXT Next\nINVARIANTS PrintLiteral LitExact\nCHECK_DEADLOCK FALSE\n", n)
-	res, err := runTLC(ctx, core.TLCOpts{Module: "C15Run", Cfg: cfg, Files: map[string][]byte{"C15Run.tla": wrapperModule(litAtoms)},
-		Workers: 1, Timeout: 8 * time.Minute, Label: "M2-enumerate-literals"})
+	res, err := runTLC(ctx, core.TLCOpts{Module: "C15Run", Cfg: cfg, Files: map[string][]byte{"C15Run.tla": wrapperModule(atoms)},
+		Workers: 1, Timeout: 8 * time.Minute, Label: "M2-enumerate-" + label})
 	if err != nil {
 		return nil, nil, err
 	}
@@ -60,45 +69,54 @@ func EnumerateLiterals(ctx *core.Ctx, n int) ([]litBody, []litCtx, error) {
 		return nil, nil, err
 	}
 	var bodies []litBody
-	ctxs := []litCtx{{"{$x}", "{$x}", "X", "X"}, {"{sp}", "{call .u/}", " ", "U"}}
+	ctxs := map[string][]litCtx{}
+	for e := range eolOf {
+		ctxs[e] = []litCtx{{"{$x}", "{$x}", "X", "X"}, {"{sp}", "{call .u/}", " ", "U"}}
+	}
+	native := 0
 	for _, v := range vals {
 		switch v.L[0].S {
 		case "L":
-			if len(v.L) != 5 {
+			if len(v.L) != 7 {
 				return nil, nil, fmt.Errorf("malformed L tuple")
 			}
-			b, e1 := v.L[1].Text(litReal)
-			o, e2 := v.L[4].Text(litReal)
-			if e1 != nil || e2 != nil {
+			b, e1 := v.L[3].Text(litReal)
+			o, e2 := v.L[6].Text(litReal)
+			if e1 != nil || e2 != nil || eolOf[v.L[1].S] == "" {
 				return nil, nil, fmt.Errorf("malformed L tuple: %v %v", e1, e2)
 			}
-			bodies = append(bodies, litBody{b, v.L[2].B, v.L[3].S, o})
+			if v.L[1].S == "lf" {
+				native++
+			}
+			bodies = append(bodies, litBody{eol: v.L[1].S, atoms: v.L[2].I, body: b, double: v.L[4].B, verdict: v.L[5].S, out: o})
 		case "LC":
-			if len(v.L) != 6 {
+			if len(v.L) != 7 || eolOf[v.L[1].S] == "" {
 				return nil, nil, fmt.Errorf("malformed LC tuple")
 			}
 			var t [4]string
 			for i := 0; i < 4; i++ {
-				x, err := v.L[2+i].Text(nil)
+				x, err := v.L[3+i].Text(nil)
 				if err != nil {
 					return nil, nil, err
 				}
 				t[i] = x
 			}
-			ctxs = append(ctxs, litCtx{t[0], t[1], t[2], t[3]})
+			ctxs[v.L[1].S] = append(ctxs[v.L[1].S], litCtx{t[0], t[1], t[2], t[3]})
 		}
 	}
-	if want := 2 * countStrings(len(litAtoms), n); len(bodies) != want {
-		return nil, nil, fmt.Errorf("TLC enumerated %d literal blocks, expected %d", len(bodies), want)
+	if want := 2 * countStrings(len(atoms), n); native != want {
+		return nil, nil, fmt.Errorf("TLC enumerated %d literal blocks, expected %d", native, want)
 	}
-	if len(ctxs) < 5 {
-		return nil, nil, fmt.Errorf("TLC printed %d literal contexts", len(ctxs)-2)
+	for e, c := range ctxs {
+		if len(c) < 5 {
+			return nil, nil, fmt.Errorf("TLC printed %d literal contexts for line ends %s", len(c)-2, e)
+		}
 	}
 	return bodies, ctxs, nil
 }
 
 // ReplayLiterals renders every judged block in every context.
-func ReplayLiterals(ctx *core.Ctx, bodies []litBody, ctxs []litCtx) {
+func ReplayLiterals(ctx *core.Ctx, label string, atoms []string, bodies []litBody, ctxs map[string][]litCtx, fullAtoms int) {
 	var wg sync.WaitGroup
 	jobs := make(chan litBody, 256)
 	var renders, judged, unspec int64
@@ -117,9 +135,15 @@ func ReplayLiterals(ctx *core.Ctx, bodies []litBody, ctxs []litCtx) {
 				}
 				atomic.AddInt64(&judged, 1)
 				g := Seg{K: "lit", S: b.body, D: b.double}
-				for _, c := range ctxs {
-					lc := &LiteralCase{Kind: "literal", Body: b.body, Double: b.double, Before: c.preSrc, After: c.postSrc}
-					lc.File = TemplateFile(c.preSrc + g.source() + c.postSrc)
+				all := ctxs[b.eol]
+				use := all
+				if b.atoms > fullAtoms {
+					// the longest bodies: two contexts each, rotating
+					use = []litCtx{all[b.idx%len(all)], all[(b.idx+3)%len(all)]}
+				}
+				for _, c := range use {
+					lc := &LiteralCase{Kind: "literal", Body: b.body, Double: b.double, Eol: b.eol, Before: c.preSrc, After: c.postSrc}
+					lc.File = TemplateFileEol(c.preSrc+g.source()+c.postSrc, eolOf[b.eol])
 					lc.Obs = RenderFile(lc.File)
 					atomic.AddInt64(&renders, 1)
 					want := c.preOut + b.out + c.postOut
@@ -130,6 +154,9 @@ func ReplayLiterals(ctx *core.Ctx, bodies []litBody, ctxs []litCtx) {
 					form := "single-brace"
 					if b.double {
 						form = "double-brace"
+					}
+					if lc.Obs.Err == "" && strings.ReplaceAll(lc.Obs.Out, "\r", "") == strings.ReplaceAll(want, "\r", "") && strings.Count(lc.Obs.Out, "\n") == strings.Count(want, "\n") {
+						form += ",line-ends-converted"
 					}
 					feature := "not-verbatim:" + form
 					switch {
@@ -151,16 +178,17 @@ func ReplayLiterals(ctx *core.Ctx, bodies []litBody, ctxs []litCtx) {
 			}
 		}()
 	}
-	for _, b := range bodies {
-		ctx.Distinct(fmt.Sprintf("literal:%v:%s", b.double, b.body))
+	for i, b := range bodies {
+		ctx.Distinct(fmt.Sprintf("literal:%s:%v:%s", b.eol, b.double, b.body))
+		b.idx = i
 		jobs <- b
 	}
 	close(jobs)
 	wg.Wait()
 	ctx.AddEvals(renders)
 	ctx.AddTraces(judged)
-	setExtra(ctx, "replay_literals", map[string]interface{}{
-		"atoms": litAtoms, "blocks": len(bodies), "judged": judged, "unspec_body_contains_own_closing_tag": unspec,
-		"contexts": len(ctxs), "renders": renders,
+	setExtra(ctx, "replay_"+label, map[string]interface{}{
+		"atoms": atoms, "blocks": len(bodies), "judged": judged, "unspec_body_contains_own_closing_tag": unspec,
+		"contexts_per_line_end_form": len(ctxs["lf"]), "line_end_forms": []string{"lf", "crlf (whole source)", "cr (whole source)"}, "renders": renders,
 	})
 }
